@@ -624,6 +624,15 @@ impl<T: Decode> Bottom for DecodeOf<T> {
     }
 }
 
+/// Decodes T twice from the same input (first outcome discarded).
+pub struct TwiceOf<T>(pub T);
+impl<T: Decode> Bottom for TwiceOf<T> {
+    fn run<I: Input>(input: &mut I) -> Result<Self, Error> {
+        let _ = T::decode(input);
+        T::decode(input).map(TwiceOf)
+    }
+}
+
 pub struct SkipOf<T>(pub std::marker::PhantomData<T>);
 impl<T: Decode> Bottom for SkipOf<T> {
     fn run<I: Input>(input: &mut I) -> Result<Self, Error> {
